@@ -43,6 +43,12 @@ claims.update({
    'Not decided: cryptographic strength, payload round trips. Known findings F5a (unsigned PATCH/HEAD/OPTIONS bypass the strict gate) and F5b (X-Request-Uri replaces the signed path).',
    'DESIGN.md 3.C18'),
 })
+claims.update({
+ 'C08': ('other', 'value-flow completeness of the re-resolved option set, validate-before-store on all inlined paths, exhaustive decision tables (range test, bracket parsers, optional-dependency resolution) evaluated over the path engine',
+   'toOptionsWithContext carries every declared option except the resolved Optional flag; on every path from the two field entry points to a primitive store a range validation against the field\'s own options and an options-membership check succeeded first on the stored value; absent non-optional non-default scalars yield the is-not-set error, null only for optional fields; validateNumberRange == inside-the-interval for all 36 ordering x bracket rows; bracket parsers and the optional=dep / optional=!dep resolution equal their tables (32 rows).',
+   'Not decided: no-panic (reflection), exact value fidelity, completeness (valid input accepted) beyond the tables; slice/map elements carry no per-element options.',
+   'DESIGN.md 3.C08'),
+})
 not_built_reason = 'static rules designed (DESIGN.md section 3) but not built yet in this revision'
 
 checks, na = [], []
